@@ -27,7 +27,8 @@ def child(hashseed, seeds, tier, mode, order="fwd"):
     e["PYTHONHASHSEED"] = hashseed
     e["PYTHONDONTWRITEBYTECODE"] = "1"
     e["D42_REPO"] = env.REPO
-    p = subprocess.run([sys.executable, "-W", "ignore", "-m", "mc.c17_child", json.dumps(seeds), tier,
+    from ..runner import _NO_ASLR          # same addresses on every run: replays are exact
+    p = subprocess.run(_NO_ASLR + [sys.executable, "-W", "ignore", "-m", "mc.c17_child", json.dumps(seeds), tier,
                         mode, order], cwd=env.VERIF, env=e, capture_output=True, text=True, timeout=1800)
     if p.returncode != 0:
         return {"error": p.stderr[-800:]}
@@ -61,6 +62,8 @@ def configurations(tier, seed):
             out.append((f"hash={h}", h, [k], "fwd"))
         out.append(("reverse-order", hs[0], [k], "rev"))
         out.append(("further-instances-created-after-seeding", hs[0], [k], "fwd+instances"))
+        if k == ks[0]:
+            out.append(("temporary-schemas-generated-and-dropped-before", hs[0], [k], "fwd+churn"))
         other = ks[(ks.index(k) + 1) % len(ks)]
         out.append((f"after-seed-{other!r}", hs[0], [other, k], "fwd"))
     return out
@@ -139,7 +142,9 @@ def run(tier, seed):
                                    "tier": tier})
         else:
             what = {"reverse-order": "enumeration-order",
-                    "further-instances-created-after-seeding": "further-instances-created-after-seeding"
+                    "further-instances-created-after-seeding": "further-instances-created-after-seeding",
+                    "temporary-schemas-generated-and-dropped-before":
+                        "temporary-schemas-generated-and-dropped-before"
                     }.get(label, "an-earlier-seed-in-the-same-process")
             i = diff[0]
             members = sorted({show(terms[j]) for i2 in diff[:200] for j in seqs[i2]})
